@@ -1277,6 +1277,41 @@ class Substitution(Rule):
     def get_substs(self):
         return {self.var_name: self.var_subst}
 
+    def select_branch(self, gu: Expr, e: Expr, ctx: Context) -> Expr:
+        """solve_equation returns one branch gu of the inverse of var_subst. Check at two
+        interior points of the interval of integration that it is the branch mapping back
+        into the interval. If it is not, try -gu (even var_subst on a negative interval),
+        otherwise reject the substitution.
+
+        """
+        try:
+            lo, hi = expr.eval_expr(e.lower), expr.eval_expr(e.upper)
+            if lo == float('-inf') and hi == float('inf'):
+                pts = [-1, 2]
+            elif lo == float('-inf'):
+                pts = [hi - 1, hi - 3]
+            elif hi == float('inf'):
+                pts = [lo + 1, lo + 3]
+            else:
+                pts = [lo + (hi - lo) / 3, lo + (hi - lo) * 3 / 5]
+            pts = [Const(Fraction(p)) for p in pts]
+            us = [Const(Fraction(expr.eval_expr(self.var_subst.subst(e.var, p)))) for p in pts]
+
+            def is_inverse(g: Expr) -> bool:
+                return all(abs(expr.eval_expr(g.subst(self.var_name, u)) - expr.eval_expr(p)) < 1e-8
+                           for p, u in zip(pts, us))
+            if is_inverse(gu):
+                return gu
+            neg_gu = normalize(-gu, ctx.get_conds())
+            if is_inverse(neg_gu):
+                return neg_gu
+        except AssertionError:
+            raise
+        except Exception:
+            # Cannot evaluate numerically (parameters, functions unknown to eval_expr)
+            return gu
+        raise AssertionError("Substitution: cannot invert %s on the interval" % self.var_subst)
+
     def eval(self, e: Expr, ctx: Context) -> Expr:
         """
         Parameters:
@@ -1325,6 +1360,8 @@ class Substitution(Rule):
                 raise AssertionError("Substitution: unable to solve equation")
 
             gu = normalize(gu, ctx.get_conds())
+            if e.is_integral():
+                gu = self.select_branch(gu, e, ctx)
             c = e.body.replace(parser.parse_expr(e.var), gu)
             new_problem_body = c * deriv(str(var_name), gu, ctx)
             self.f = new_problem_body
